@@ -264,6 +264,17 @@ func rangeArithmeticRules(r *Report, name string, f *ssa.Function) {
 		}
 	}
 	r.Decide("flow", key("an open-ended range is completed with size-1"), okOpen, "on the HasSuffix(\"-\") edge the text becomes first-(size-1) and that text is parsed", "a range of the form \"N-\" is not completed with the last position of the content: it is refused as malformed or served short", f.Pos())
+	// positions are decimal: no parse of a position (here or in a helper it calls) lets the text
+	// choose its base (base 0 reads a zero-padded position as octal and accepts 0x.. and 1_0)
+	okBase := true
+	for _, g := range w.staticReach(f) {
+		for _, c := range plainCalls(g, "strconv.ParseInt", "strconv.ParseUint") {
+			if k, isK := constInt(c.Call.Args[1]); !isK || k != 10 {
+				okBase = false
+			}
+		}
+	}
+	r.Decide("flow", key("byte positions are parsed as decimal numbers"), okBase, "every ParseInt on the way has base 10 (Atoi is decimal)", "a position is parsed with base 0: bytes=0010-0020 is read as octal 8-16, the answer is self-consistent but is not the requested range", f.Pos())
 	// every element of the comma-separated list is examined, the empty ones included: the parse loop
 	// runs over the strings.Split result itself (a list from which empty elements were dropped can be
 	// empty, and an answer is then assembled from no range at all instead of the 416)
